@@ -76,6 +76,14 @@ def run(tape, scenario):
         if not violations:
             violations.append({"rule": rule, "params": params, "detail": detail})
 
+    def frame_size():
+        """bytes of process data in a group's frame: mostly a few, sometimes those of a
+        large group (EtherCAT length of 256 and more, up to the largest frame)"""
+        if tape.chance("c22/long-frame", 20):
+            world.count("c22/frame-longer-than-255-bytes")
+            return 230 + tape.draw("c22/long-size", 1200)
+        return (8 if not UNPADDED[0] else 0) + tape.draw("c22/size", 40)
+
     ec = FastEtherCat("sim0")
     stage = ["connect"]
     groups = {}          # slot -> dict(marker, runs, inflight, noprog_passes, noprog_tx)
@@ -135,7 +143,8 @@ def run(tape, scenario):
         stack = main_stack
         for _ in range(with_groups):
             m = Marker()
-            cm = tape.pick("c22/registering-master", masters).register_sync_group(m)
+            master = tape.pick("c22/registering-master", masters)
+            cm = master.register_sync_group(m)
             try:
                 idx = cm.__enter__()
             except OSError as e:
@@ -153,7 +162,7 @@ def run(tape, scenario):
                      f"second group while the first is registered")
                 return
             groups[idx] = dict(marker=m, runs=0, inflight=[], noprog=0, noprog_tx=0,
-                               noprog_user=0, prog=None)
+                               noprog_user=0, prog=None, cm=cm, master=master)
         env.collide.pop("rand/ebpfcat", None)
         kernel.command_fault = None
         # the per-group loop counters are 32 bit and only their low byte travels in the
@@ -284,11 +293,35 @@ def run(tape, scenario):
                 choices = [c for c in choices if c[0] != "foreign"] or choices
                 if tape.chance("c22/foreign-now", 5):
                     choices = [("foreign", None)]
+            if groups and scenario != "foreign" and tape.chance("c22/unregister-now", 2):
+                # a group leaves while the dispatcher stays: its slot is empty again, and
+                # what is still under way of it is treated like any group without program
+                choices = [("unregister", tape.pick("c22/leaving-group", sorted(groups)))]
             what, g = tape.pick("c22/action", choices)
             history.append((what, g))
-            if what == "inject":
+            if what == "unregister":
+                st = groups.pop(g)
+                world.count("c22/group-unregistered-while-frames-are-under-way"
+                            if st["inflight"] else "c22/group-unregistered")
+                try:
+                    main_stack.remove(st["cm"])
+                    st["cm"].__exit__(None, None, None)
+                except Exception as e:
+                    viol("unregister-failed", f"group {g}: {type(e).__name__}: {e}",
+                         exception=type(e).__name__)
+                    return
+                if kernel.obj(ec.programs).prog_at(g) is not None:
+                    viol("program-still-in-table", f"slot {g} still holds the program of the "
+                         f"group that has left")
+                    return
+                if g in st["master"].sync_groups:
+                    viol("group-still-registered", f"group {g} is still in the master's books")
+                    return
+                unreg[g] = st["inflight"]
+                unreg_groups.append(g)
+            elif what == "inject":
                 st = groups[g]
-                size = (8 if not UNPADDED[0] else 0) + tape.draw("c22/size", 40)
+                size = frame_size()
                 st["inflight"].append(mkframe(g, 0x4000 + g, size))
                 world.count("fault/frame-injected")
             elif what == "lose":
@@ -333,8 +366,7 @@ def run(tape, scenario):
                              f"group {g}: {st['noprog_tx']} consecutive re-transmissions "
                              f"without the group's program", mode="anyorder")
             elif what == "inject-unreg":
-                f = mkframe(g, 0x5000 + (g & 0xff),
-                            (8 if not UNPADDED[0] else 0) + tape.draw("c22/size", 40))
+                f = mkframe(g, 0x5000 + (g & 0xff), frame_size())
                 unreg[g].append(f)
             elif what == "deliver-unreg":
                 i = 0 if fifo else tape.draw("c22/which", len(unreg[g]))
@@ -357,7 +389,8 @@ def run(tape, scenario):
         if True:
             if True:
                 kind = tape.draw("c22/foreign-kind", 5)
-                size = 8 + tape.draw("c22/size", 60)
+                size = frame_size() if tape.chance("c22/long-foreign", 15) \
+                    else 8 + tape.draw("c22/size", 60)
                 if kind == 0:
                     f = mkframe(3, 0x4003, size, ether=0x0800)            # not EtherCAT
                 elif kind == 1:
